@@ -39,6 +39,8 @@ struct Answer {
     score: Option<i16>,
     counts: Vec<u64>,
     board_unchanged: bool,
+    /// result-cache hits during the final search (steering only, never compared)
+    hits: u64,
 }
 
 pub fn gen_plan(property: &str, seed: u64, index: u64, tier: Tier) -> Plan {
@@ -158,6 +160,7 @@ fn workload(plan: &Plan, workers: usize, steal: usize) -> Answer {
         score: None,
         counts: Vec::new(),
         board_unchanged: true,
+        hits: 0,
     };
     for (i, op) in plan.ops.iter().enumerate() {
         if i == last {
@@ -190,6 +193,7 @@ fn workload(plan: &Plan, workers: usize, steal: usize) -> Answer {
                     score: ctx.last_score(),
                     counts: Vec::new(),
                     board_unchanged: before == after,
+                    hits: ctx.cache_hit_count() as u64,
                 };
             }
             Op::Perft(d, _) => {
@@ -199,6 +203,7 @@ fn workload(plan: &Plan, workers: usize, steal: usize) -> Answer {
                     score: None,
                     counts: vec![n],
                     board_unchanged: true,
+                    hits: 0,
                 };
             }
             _ => {}
@@ -383,7 +388,17 @@ pub fn exec(plan: &Plan) -> Outcome {
     }
 
     // 2. explored schedules (or the replayed one)
-    let iterations = plan.knob("iterations", 10) as usize;
+    let mut iterations = plan.knob("iterations", 10) as usize;
+    if plan.property == "C09" {
+        if baseline.hits == 0 {
+            // the in-order run saw no result-cache hit at all, so no task can read what another
+            // task wrote under any schedule: two schedules are enough here, the budget goes elsewhere
+            iterations = iterations.min(2);
+            stats.bump("steering/no-cache-sharing-in-baseline");
+        } else {
+            stats.bump("probe/baseline-had-result-cache-hits");
+        }
+    }
     let evals = Arc::new(AtomicU64::new(0));
     let sigs: Arc<Mutex<Vec<u64>>> = Arc::new(Mutex::new(Vec::new()));
     let switches = Arc::new(AtomicU64::new(0));
